@@ -109,7 +109,34 @@ def install(M):
     M.env['api::client::ApiClient::new'] = api_ctx
     M.env['api::client::ApiClient::is_logged_in'] = logged_in
     M.env['authorship::secrets::redact_secrets_from_prompts'] = redact
-    M.env[PC + '::enqueue_prompt_messages_to_cas'] = enqueue
+    # the upload queue: the real enqueue_prompt_messages_to_cas runs; the database is the environment
+    def db_global(P, c, args, dt):
+        if P.state.get('db_unavailable'):
+            return err(Opaque('GitAiError', 'db'))
+        return ok(Ref(Cell(BoxV(Opaque('InternalDatabase', None), 'Mutex'))))
+
+    def enqueue_object(P, c, args, dt):
+        k = P.state.setdefault('cas_calls', 0)
+        P.state['cas_calls'] = k + 1
+        P.events.append(('cas_enqueue',))
+        plan = P.state.get('cas_plan')
+        okk = P.state['cas_ok'] if plan is None else plan[k % len(plan)]
+        if okk:
+            return ok(pystring('hash%d' % k))
+        return err(Opaque('GitAiError', 'cas'))
+
+    def default_remote(P, c, args, dt):
+        pol = P.state.get('c08_policy')
+        if pol and pol.get('remotes'):
+            return ok(some(pystring('r0')))      # origin, or else the first remote
+        return ok(none())
+
+    def normalize_url(P, c, args, dt):
+        return ok(pystring('https://h/r'))
+    M.env['authorship::internal_db::InternalDatabase::global'] = db_global
+    M.env['authorship::internal_db::InternalDatabase::enqueue_cas_object'] = enqueue_object
+    M.env['git::repository::Repository::get_default_remote'] = default_remote
+    M.env['repo_url::normalize_repo_url'] = normalize_url
     M.env['git::refs::notes_add'] = notes_add
 
     def list_commit_files(P, c, args, dt):
@@ -157,6 +184,9 @@ def plan(tier, seed):
                             if mode != 'Default' and (logged or custom or not cas_ok):
                                 continue
                             tasks.append(('dispatch', {'mode': mode, 'prompts': npr, 'messages': nm, 'logged_in': logged, 'custom_api': custom, 'cas_ok': cas_ok}))
+    for plan_ in ([True, False], [False, True], [False, False]):
+        for logged in (False, True):
+            tasks.append(('dispatch', {'mode': 'Default', 'prompts': 2, 'messages': 1, 'logged_in': logged, 'custom_api': not logged, 'cas_ok': False, 'cas_plan': plan_}))
     for nex in (0, 1, 2):
         for nin in (0, 1, 2):
             for nrem in (-1, 0, 1, 2):
@@ -193,6 +223,8 @@ def ob_dispatch(h, shape):
     P.state['logged_in'] = shape['logged_in']
     P.state['custom_api'] = shape['custom_api']
     P.state['cas_ok'] = shape['cas_ok']
+    P.state['cas_plan'] = shape.get('cas_plan')
+    P.state['cas_calls'] = 0
     P.state['wl'] = c03.mk_wl(M)
     P.state['fs'] = {'/wl': 'DIR'}
     # DEFAULT_API_BASE_URL as the code sees it
@@ -302,11 +334,61 @@ OBLIGATIONS = {'dispatch': ob_dispatch, 'policy': ob_policy}
 MUST_COVER = ['K2-excluded', 'K2-notes']
 
 
+def _replay_post_commit(v, native):
+    """K1 end to end: a real agent checkpoint with a transcript, a real commit, the real post_commit; the note is read back.
+    Stageable: storage mode, a custom API URL (stands in for being logged in), an upload queue that works for every
+    prompt or for none."""
+    import json
+    import os
+    import subprocess
+    import tempfile
+    inp = v['inputs']
+    plan_ = inp.get('cas_plan')
+    if inp.get('logged_in') and not inp.get('custom_api'):
+        upload = True      # staged through a custom API URL: the same branch of post_commit
+    else:
+        upload = bool(inp.get('custom_api'))
+    if plan_ is not None and len(set(plan_)) > 1:
+        return {'reproduced': False, 'note': 'an upload queue failing for some prompts only cannot be staged natively'}
+    cas_fails = (plan_ is not None and not plan_[0]) or (plan_ is None and not inp.get('cas_ok', True))
+    home = tempfile.mkdtemp(prefix='vc08p')
+    try:
+        os.makedirs(os.path.join(home, '.git-ai'))
+        json.dump({'prompt_storage': inp['mode'].lower(), 'exclude_prompts_in_repositories': []}, open(os.path.join(home, '.git-ai', 'config.json'), 'w'))
+        env = dict(os.environ, HOME=home, GIT_AI_DEBUG='0')
+        env.pop('GIT_AI_API_BASE_URL', None)
+        if upload:
+            env['GIT_AI_API_BASE_URL'] = 'http://127.0.0.1:9/git-ai-test'
+        env['GIT_AI_TEST_DB_PATH'] = os.path.join(home, 'db')
+        env['GITAI_TEST_DB_PATH'] = os.path.join(home, 'db')
+        payload = {'prompts': inp.get('prompts', 1)}
+        if cas_fails:
+            payload['break_db_after_checkpoint'] = '/dev/null/git-ai-vreplay/db'
+        exe = native.__globals__['replay_binary']()
+        p = subprocess.run([exe, 'c08_post_commit'], input=json.dumps(payload).encode(), stdout=subprocess.PIPE, stderr=subprocess.PIPE, env=env, timeout=120)
+        if p.returncode == 101:
+            return {'reproduced': v['kind'] == 'panic', 'stderr': p.stderr.decode('utf-8', 'replace')[-400:]}
+        r = json.loads(p.stdout.decode().strip().split('\n')[-1])
+        leaked = bool(r.get('note_has_conversation'))
+        ob = v['obligation']
+        bad = {'K1-no-conversation-text-in-note': inp['mode'] != 'Notes' and leaked,
+               'K1-notes-mode-keeps-messages': inp['mode'] == 'Notes' and not leaked,
+               'K1-note-is-written': r.get('note_len', 0) == 0}
+        return {'reproduced': bool(bad.get(ob)), 'native': r}
+    finally:
+        subprocess.call(['rm', '-rf', home])
+
+
+def replay_priority(v):
+    plan_ = v['inputs'].get('cas_plan')
+    return 1 if (plan_ is not None and len(set(plan_)) > 1) else 0
+
+
 def replay(v, native):
     ob = v['obligation']
     inp = v['inputs']
     if not ob.startswith('K2-'):
-        return {'reproduced': False, 'note': 'end-to-end replay of post_commit needs a checkpointed repository; not implemented'}
+        return _replay_post_commit(v, native)
     if inp.get('remotes') is None and not inp.get('no_repo'):
         return {'reproduced': False, 'note': 'a repository whose remotes cannot be listed is not staged natively'}
     import json
